@@ -40,7 +40,13 @@ def parse_check(ctx):
     s = ctx.harness('parsecases', prop=pid, **{'in': r['out']})
     viol = list(s['violations'])
     extra = {}
-    if thorough or pid in ('C01', 'C18'):
+    if pid == 'C18':
+        # Get / Set clauses: unknown abbreviation -> *ErrInvalidMetric{abv}, illegal value -> ErrInvalidMetricValue
+        from . import objfam
+        r3, s3 = objfam.obj_edges(ctx, 'C18')
+        viol += list(s3['violations'])
+        extra['get_set_calls_compared'] = s3['compared']
+    if thorough or pid == 'C01':
         # small-step run: every cursor state of the automata is a TLC state; the walk terminates
         cfg2 = CFG % dict(seed=ctx.seed, K=1, maxdev=1, fam='defects' if not thorough else FAM[pid], big='FALSE')
         cfg2 = cfg2.replace('  Emit\n', '')
